@@ -40,30 +40,41 @@ PROP = 'C07'
 
 META = dict(
     claimed=True,
-    text='Kernel-checked theorems about the Lean model of the coder walk, for all states/templates: a marker operator and a '
-         'class-33 value after 222000 are linked to the next unconsumed entry of the bit-map selection; the selection is '
-         'exactly the back-referenced elements whose bit is 0, in order, and a bit-map whose length differs from the back '
-         'references is refused; the back references are the last N plain-element items below the operator, in order with '
-         'their positions; 225255 is coded with width+1 and reference -2^width; an associated field is recorded directly in '
-         'front of its owner.  For the WHOLE walk of any template (C07_walk_invariant, C07_links_sound_*_partial): every link '
-         'points from a value to an earlier item that is a plain element, and every entry of the back-reference / selection '
-         'registers names an item that is that element; for uncompressed messages the links (labels, values) of a subset are '
-         'those of decoding or encoding that subset alone, whatever the other subsets hold '
-         '(C07_links_independent_of_other_subsets, C07_links_of_subset_alone, C07_encoder_links_independent_of_other_subsets), '
-         'so that links = Spec.links for single walks lifts to messages (C07_links_eq_spec_lifts_to_message).  The equality of '
-         'the recorded links with the after-the-fact specification Spec.links (235000 / 236000 / 237000 / 237255 included) is '
-         'NOT proved for all inputs: it is checked by correspondence — Spec.links is evaluated by the compiled model on the '
-         'implementation\'s own item list of EVERY subset of every generated case (all 0/1 patterns of bit-maps of length 1..8 '
-         'per base template, random lengths up to 40, chains of 1-3 operators, and 2-4 uncompressed subsets whose delayed '
-         'replications in front of the operator differ but record the same number of items, with per-subset bit-maps and '
-         'bit-map lengths) and compared with the implementation\'s bitmap_links and with the model walk; every marker value '
-         'of every subset must carry the element, width, scale and reference of the item its link names; the hierarchical '
-         'view is checked against the same links.',
-    technique='Lean 4 theorems (induction over the descriptor list / case analysis of the walk / an invariant carried through '
-              'the mutual recursion of the walk) + executable specification evaluated on the implementation\'s output + '
-              'checked model/implementation correspondence',
-    note='C07_links_eq_spec is stated (comment block in Props/C07.lean) but only its building blocks, its soundness half '
-         '(Props/C07Walk.lean) and its reduction from messages to single walks (Props/C07Subsets.lean) are proved; see notes/C07.md.',
+    text='PROVED for all inputs (C07_links_eq_spec, Props/C07Spec.lean): for EVERY template satisfying the decidable '
+         'predicate Spec.WFlinks (replications nested to any depth, sequences, every operator, 235000/236000/237000/237255 '
+         'included; the bit-map operator and its definition -- 237000, or an optional 236000 and the replication of 031031 -- '
+         'are consecutive members of one member list, 031031/236000/237000 nowhere else, no 203YYY definition / 206YYY / '
+         '221YYY) and every bit string, if the decode of a subset succeeds and the reported items satisfy the decidable '
+         'predicate Spec.markersOk, then links of the output = Spec.links (items of the output, cancel times of the run) '
+         '-- soundness, the exact k-th zero-bit candidate of the governing bit-map definition, and completeness in one '
+         'equation.  Spec.markersOk excludes exactly the two classes in which the code is known to deviate (open findings '
+         'F-C07-marker-class33, F11-C07-links-marker); there the equality is FALSE and the negation is proved on concrete '
+         'witnesses (C07_links_ne_spec_marker_class33, C07_links_ne_spec_assoc_marker).  Lifted to templates without 235YYY '
+         '(cancels = [], C07_links_eq_spec_no235), to whole messages uncompressed (any number of subsets, '
+         'C07_links_eq_spec_message, _message_no235) and compressed (C07_links_eq_spec_compressed: shared links = Spec.links '
+         'of the first subset, whose values are the bit-maps the coder uses), and to the ENCODER '
+         '(C07_encoder_links_eq_spec, _message, _compressed).  Route: Spec.links -- an after-the-fact recomputation with '
+         'position look-ups -- is proved equal to a left fold over the items for ALL item lists and cancel times '
+         '(Spec.linksFold_eq); the registers of the walk are tied to the state of that fold over the items recorded so far '
+         '(C07.Core) and the tie is carried through every step and the mutual recursion over the template '
+         '(C07.presG_walkL).  Also proved, for all states/templates: 225255 is coded with width+1 and reference -2^width; an '
+         'associated field is recorded directly in front of its owner; what each operator does to the registers; every link '
+         'points from a value to an earlier plain element in front of a bit-map operator for ANY template '
+         '(C07_walk_invariant, C07_links_sound_*_partial, no well-formedness needed); the links of a subset of an '
+         'uncompressed message are those of that subset alone (C07_links_independent_of_other_subsets, '
+         'C07_links_of_subset_alone, C07_encoder_links_independent_of_other_subsets).  The tie to the code is the '
+         'correspondence check: Spec.links is evaluated by the compiled model on the implementation\'s own item list of '
+         'EVERY subset of every generated case (with the cancel times observed on the implementation) and compared with '
+         'the implementation\'s bitmap_links and with the model walk; the evidence counts how many generated cases lie '
+         'inside the hypotheses of the theorem (WFlinks template, markersOk items).',
+    technique='Lean 4 theorems (specification shown to be a left fold by an invariant over item prefixes; refinement '
+              'invariant between the registers of the walk and the fold state, carried through the mutual structural '
+              'recursion of the walk with a ghost list of cancel times; negations by kernel evaluation) + executable '
+              'specification evaluated on the implementation\'s output + checked model/implementation correspondence',
+    note='C07_links_eq_spec is proved under Spec.WFlinks (template) and Spec.markersOk (items); outside markersOk the '
+         'equality is refuted on witnesses (open findings).  Templates outside WFlinks (bit-map operator and its 031031 '
+         'replication in different member lists, stray 031031/236000/237000, 203/206/221 in force) are covered by the '
+         'soundness half and by correspondence only; see notes/C07.md.',
 )
 
 KINDS = (222, 223, 224, 225, 232)
@@ -1010,6 +1021,9 @@ def run_chunk(ctx, drv, treq, cases):
             ctx.count(f)
         w = wf.get(k, {})
         ctx.count('WFbitmap' if w.get('wf') else 'outside-WFbitmap')
+        ctx.count('WFlinks' if w.get('wflinks') else 'outside-WFlinks')
+        if w.get('wflinks') and w.get('nocancel'):
+            ctx.count('WFlinks-no235')
         # model vs implementation
         why = None if ORACLE_ONLY else P.compare_decode((im['status'], im.get('subsets'), None), mr)
         if why:
@@ -1039,6 +1053,13 @@ def run_chunk(ctx, drv, treq, cases):
             if not sp['recalls_ok']:
                 ctx.count('recall-not-FM94')
             ctx.count('links', len(sub['l']))
+            # the hypotheses of C07_links_eq_spec: WFlinks template, markersOk items (evaluated on the implementation's items)
+            if w.get('wflinks') and sp.get('markers_ok'):
+                ctx.count('subsets-inside-C07_links_eq_spec')
+                if sub['l']:
+                    ctx.count('subsets-inside-C07_links_eq_spec-with-links')
+            elif not sp.get('markers_ok', True):
+                ctx.count('subsets-outside-markersOk')
         if bad:
             continue
         # marker values: element, width, scale, reference of the owner -- in every subset
@@ -1174,7 +1195,9 @@ def run(ctx):
         ctx.count('generated', len(part))
         ctx.count('with-values', len(cases))
     ctx.notes.append('Spec.links is evaluated on the implementation item list of every decoded subset (driver op links-spec); '
-                     'C07_links_eq_spec itself is not proved for all inputs')
+                     'C07_links_eq_spec is proved for WFlinks templates and markersOk items: the counters '
+                     'subsets-inside-C07_links_eq_spec / WFlinks / subsets-outside-markersOk say how many generated cases lie '
+                     'inside its hypotheses')
 
 
 def replay(ctx, path):
